@@ -103,6 +103,11 @@ pub struct Env<'a> {
     pub failed_in_child: bool,
     /// The state error that made a state read fail (it must reach the caller unchanged).
     pub state_error: Option<String>,
+    /// Gas total that the refused op would have brought the run to (set when out-of-gas strikes).
+    pub oog_need: u128,
+    /// Out-of-gas struck inside a compute child that exceeds the budget left at the fork on its own (not only together
+    /// with its siblings): that child fails by itself, whatever the others do.
+    pub child_alone_oog: bool,
 }
 
 impl<'a> Env<'a> {
@@ -129,12 +134,15 @@ impl<'a> Env<'a> {
             breadth_cap: 10_000,
             failed_in_child: false,
             state_error: None,
+            oog_need: 0,
+            child_alone_oog: false,
         }
     }
     /// Charge for `op`; `OutOfGas` if the total would exceed the limit.
     pub fn charge(&mut self, op: &Op) -> R<()> {
         let next = self.gas + self.cost.cost(op) as u128;
         if next > self.limit as u128 {
+            self.oog_need = next;
             return Err(Fail::OutOfGas);
         }
         if self.executed >= self.max_executed {
@@ -726,6 +734,7 @@ pub fn step(m: &mut Machine, op: Op, env: &mut Env, depth: usize) -> R<Flow> {
                     return Err(Fail::Unspec("breadth-cap"));
                 }
                 env.children += n as u64;
+                let gas_at_fork = env.gas;
                 let parent = Arc::new(m.mem.clone());
                 let mut maxpc = 0usize;
                 let mut joined: Vec<Word> = vec![];
@@ -738,9 +747,13 @@ pub fn step(m: &mut Machine, op: Op, env: &mut Env, depth: usize) -> R<Flow> {
                         parent: Some(parent.clone()),
                         rep: m.rep.clone(),
                     };
+                    let gas_at_child = env.gas;
                     let r = ch.push(i).and_then(|_| run(&mut ch, env, 1));
                     if let Err(f) = r {
                         env.failed_in_child = true;
+                        if f == Fail::OutOfGas {
+                            env.child_alone_oog = gas_at_fork + (env.oog_need - gas_at_child) > env.limit as u128;
+                        }
                         return Err(f);
                     }
                     maxpc = maxpc.max(ch.pc);
